@@ -39,7 +39,8 @@ class C08(MonitorCheck):
                    'PECS for function types and disable_variance flags are part of the caller\'s '
                    'variance choices']
     PROBES = ('constructor_calls', 'function_calls', 'bounded_param', 'dependent_bound',
-              'pre_assignment', 'projection_result', 'postrun_instantiations')
+              'pre_assignment', 'projection_result', 'postrun_instantiations',
+              'method_of_generic_class')
     tiers = {'quick': {'runs': 260, 'wall_s': 70, 'run_timeout_s': 200},
              'thorough': {'runs': 4000, 'wall_s': 1100, 'run_timeout_s': 900}}
 
@@ -73,6 +74,28 @@ class C08(MonitorCheck):
                             tu.instantiate_type_constructor(d.get_type(), types,
                                                             variance_choices=vcm)
                             npost += 1
+                        except Exception:   # noqa
+                            pass
+                # generic METHODS of generic classes, instantiated as _gen_matching_class /
+                # _get_matching_class do: the class is instantiated first and its assignments
+                # are handed over through type_var_map
+                nm = 0
+                for d in class_decls(run.program):
+                    if not d.type_parameters or nm >= 10:
+                        continue
+                    for fn in d.functions:
+                        if not fn.type_parameters:
+                            continue
+                        try:
+                            _, params_map = tu.instantiate_type_constructor(
+                                d.get_type(), types, only_regular=True)
+                            tu.instantiate_parameterized_function(
+                                fn.type_parameters, types, only_regular=True,
+                                type_var_map=params_map)
+                            npost += 1
+                            nm += 1
+                            probes['method_of_generic_class'] = probes.get(
+                                'method_of_generic_class', 0) + 1
                         except Exception:   # noqa
                             pass
                 nf = 0
@@ -122,7 +145,12 @@ class C08(MonitorCheck):
                     probes['bounded_param'] = probes.get('bounded_param', 0) + 1
                     if refrel.has_tvars(p[2]):
                         probes['dependent_bound'] = probes.get('dependent_bound', 0) + 1
-                    b = refrel.subst(p[2], m)
+                    # the bound is read under the chosen arguments AND under the caller's
+                    # assignments for variables of enclosing declarations (a method of C<T>
+                    # instantiated for a receiver C<String> is given {T: String})
+                    m2 = {k_: v_ for k_, v_ in pre_by_name.items() if k_ not in m}
+                    m2.update(m)
+                    b = refrel.subst(p[2], m2)
                     x = a
                     if a[0] == 'W':
                         if a[2] is None or a[1] != COV:
